@@ -36,7 +36,8 @@ HEIGHTS = [-1.0, 0.0, 0.5, 2.0, 2000.0]
 METRICS = {"quick": ["euclidean", "log_squared_euclidean", "pearson"],
            "thorough": ["euclidean", "log_squared_euclidean", "manhattan", "canberra", "chebyshev",
                         "pearson", "neyman"]}   # (kullback_leibler is negative off the simplex: outside the domain)
-TINY = {"tiny": [0.0, 1e-6, 5e-6], "straddle": [0.0, 9e-6, 1.1e-5], "edge": [0.0, 0.00001, 2e-5]}
+TINY = {"tiny": [0.0, 1e-6, 5e-6], "straddle": [0.0, 9e-6, 1.1e-5], "edge": [0.0, 0.00001, 2e-5],
+        "near9": [1.0, 1.0 + 1e-9, 1.0 + 3e-9]}      # nearly equal densities are still different densities
 
 
 def bounds(tier):
@@ -50,7 +51,10 @@ def bounds(tier):
 
 def plan(tier, seed):
     shards = [("g", 3, 3, "zero", 0, 27), ("g", 3, 3, "tiny", 0, 27), ("g", 3, 3, "straddle", 0, 27),
-              ("g", 3, 3, "edge", 0, 27)]      # a largest distance of exactly 1e-5 does not fall back
+              ("g", 3, 3, "edge", 0, 27),      # a largest distance of exactly 1e-5 does not fall back
+              ("g", 3, 3, "near9", 0, 27)]
+    for a, b in E.chunks(729, 100):
+        shards.append(("g", 4, 3, "near9", a, b))
     for a, b in E.chunks(729, 50):
         shards.append(("g", 4, 3, "zero", a, b))
     for a, b in E.chunks(1024, 64):
